@@ -302,8 +302,20 @@ func c15Case(c *mon.Ctx, i int) {
 	pick := func() *mon.Obj {
 		for k := 0; k < 50; k++ {
 			var o *mon.Obj
-			if rng.Intn(3) == 0 {
+			if r := rng.Intn(9); r < 3 {
 				o, _ = W.Mutant(c.Rng(i*53+k, 1), &c15Mut)
+			} else if r < 5 {
+				// directed families: the small ones (extension / CRL / SCT shapes, big lists, general names ...) twice as
+				// often as the two big ones
+				dC, tail := directedCount(c), directedSmallTail(c)
+				kk := dC - 1 - rng.Intn(tail)
+				if rng.Intn(3) == 0 {
+					kk = rng.Intn(dC - tail)
+				}
+				o, _ = directedCase(c, kk)
+				if o != nil {
+					c.R.Count("directed_inputs", 1)
+				}
 			} else {
 				o = W.Objs[rng.Intn(len(W.Objs))]
 			}
